@@ -28,7 +28,7 @@ ASSUMPTIONS = [
     "Memory-less phase (k <= n_burn_in + 1): S_k must equal s_k bit-exactly. Afterwards S_k must equal (1-e_k) S_(k-1) + e_k s_k both bit-exactly with the same float32 ops and against float64 within 8 ulp of the summed magnitudes.",
     "LeaspyConvergenceError during a generated fit (collapsed variance) ends the case as a rejected input.",
 ]
-REQUIRED_CLASSES = {"all-three-regimes": 100, "refused-power": 12, "nb=0": 10, "nb>=n_iter": 10, "explicit-count": 50, "explicit-count+default-fraction": 30}
+REQUIRED_CLASSES = {"all-three-regimes": 100, "refused-power": 12, "nb=0": 10, "nb>=n_iter": 10, "explicit-count": 50, "explicit-count+default-fraction": 30, "second-run-of-same-algorithm-object": 30}
 
 GRID_FRACS = [0.0, 0.1, 0.29, 0.5, 0.7, 0.9, 1.0]
 GRID_POWERS = [0.51, 0.8, 1.0]
@@ -113,8 +113,24 @@ def run_config(col: Collector, cfg, cohort, algo_kw, sub_check, classes):
     try:
         with observe.wrap_method(A, "_maximization_step", before=before_max, after=after_max):
             settings = AlgorithmSettings("mcmc_saem", seed=algo_kw.get("seed", 0), progress_bar=False,
-                                         **{k: v for k, v in algo_kw.items() if k != "seed"})
-            model.fit(data, algorithm_settings=settings)
+                                         **{k: v for k, v in algo_kw.items() if k not in ("seed", "second_run")})
+            if algo_kw.get("second_run"):
+                # one algorithm object run twice (what BaseModel.fit does, minus the fresh algorithm per call):
+                # the SECOND run is the one recorded and judged
+                from leaspy.models.base import BaseModel
+
+                algorithm = BaseModel._get_algorithm(None, settings, None)
+                warm = gen.build_model(cfg)
+                dataset_w = BaseModel._get_dataset(data)
+                warm.initialize(dataset_w)
+                algorithm.run(warm, dataset_w)
+                rec.clear()
+                dataset = BaseModel._get_dataset(data)
+                model.initialize(dataset)
+                algorithm.run(model, dataset)
+                classes.append("second-run-of-same-algorithm-object")
+            else:
+                model.fit(data, algorithm_settings=settings)
     except LeaspyAlgoInputError as e:
         if ok_power and gen.is_zero_scale_refusal(e):
             col.exclude("sampler-refused:zero-initial-scale")
@@ -221,6 +237,8 @@ def grid_configs():
                 out.append(dict(n_iter=n_iter, n_burn_in_iter=cnt, n_burn_in_iter_frac=None, burn_in_step_power=power))
             for cnt in (0, n_iter // 2, n_iter):  # count given, fraction left at its default: the count has priority
                 out.append(dict(n_iter=n_iter, n_burn_in_iter=cnt, burn_in_step_power=power))
+            if n_iter >= 4:  # the same algorithm object run twice: the schedule restarts with every run
+                out.append(dict(n_iter=n_iter, n_burn_in_iter_frac=0.5, burn_in_step_power=power, second_run=True))
     return out
 
 
@@ -269,6 +287,8 @@ def gen_case(draw, kinds):
     akw["burn_in_step_power"] = pw
     if draw(st.booleans()):
         akw["sampler_pop"] = draw(st.sampled_from(["Gibbs", "FastGibbs", "Metropolis-Hastings"]))
+    if draw(st.sampled_from([False, False, True])) and 0.5 < pw <= 1:
+        akw["second_run"] = True
     return dict(cfg=cfg, cohort=cohort, algo=akw)
 
 
